@@ -119,14 +119,13 @@ Lemma LI_set_reg r c : ListInv c -> ListInv (set_reg r c). Proof. li_ext. Qed.
 Lemma LI_set_ty r c : ListInv c -> ListInv (set_ty r c). Proof. li_ext. Qed.
 Lemma LI_bump_delivered c : ListInv c -> ListInv (bump_delivered c). Proof. li_ext. Qed.
 Lemma LI_bump_sent c : ListInv c -> ListInv (bump_sent c). Proof. li_ext. Qed.
-Lemma LI_set_ghosts a b d e c : ListInv c -> ListInv (set_ghosts a b d e c). Proof. li_ext. Qed.
 
 Ltac li_peel :=
   repeat first
     [ assumption
     | apply LI_report | apply LI_set_reader | apply LI_set_pc | apply LI_set_writer | apply LI_set_att
     | apply LI_set_res | apply LI_set_closers | apply LI_set_reg | apply LI_set_ty | apply LI_bump_delivered
-    | apply LI_bump_sent | apply LI_set_ghosts ].
+    | apply LI_bump_sent ].
 
 Lemma LI_finish_close c : ListInv c -> ListInv (finish_close c).
 Proof. intros H. unfold finish_close. li_peel. Qed.
@@ -148,7 +147,10 @@ Proof.
   destruct e; cbn [step0]; repeat destr; try assumption;
     try (match goal with E : do_disconnect c = (?c1, _) |- _ => rewrite E in Hd; cbn [fst] in Hd end);
     li_peel; try (apply LI_finalize; li_peel); try (apply LI_finish_close; li_peel);
-    try (apply LI_do_disconnect; li_peel).
+    try (apply LI_do_disconnect; li_peel);
+    try (match goal with E : do_disconnect ?x = (?c1, _) |- ListInv ?c1 =>
+           let Hx := fresh in assert (Hx : ListInv (fst (do_disconnect x))) by (apply LI_do_disconnect; li_peel);
+           rewrite E in Hx; exact Hx end).
 Qed.
 
 Lemma LI_init k t : ListInv (init k t).
